@@ -168,6 +168,18 @@ pub fn project(name: &str) -> Project {
                 sels: vec![sel(&["."], true, &[0, 1, 2]), sel(&["index.txt"], false, &[0]), sel(&["data.v2.json", "conf.d/net.v1.yaml"], false, &[1, 2])],
             }
         }
+        "afteronly" => {
+            // a dependency that is only waited for (`after`): nothing of its output appears in the depender
+            decoys(&mut plain, &[""]);
+            let r = |x: &str| format!("{x}\nTXTPP#after gen.txt\n{x} end\n");
+            let g = |x: &str| format!("{x}\n-TXTPP#temp g.tmp\n-tg {x}\n");
+            Project {
+                name: name.into(),
+                sources: vec![src("r.txt.txtpp", "r.txt", &[], &[1], &r("R"), &r("R-edited")), src("gen.txt.txtpp", "gen.txt", &["g.tmp"], &[], &g("G"), &g("G-edited"))],
+                plain,
+                sels: vec![sel(&["."], false, &[0, 1]), sel(&["r.txt"], false, &[0]), sel(&["gen.txt"], false, &[1])],
+            }
+        }
         "aligned" => {
             // the output is exactly 8192 bytes (one reader/writer buffer), written in small chunks
             let body = |c: char| (0..128).map(|_| format!("{}\n", c.to_string().repeat(63))).collect::<String>();
@@ -797,9 +809,9 @@ pub fn run_property(prop: &str, tier: &str) -> i32 {
     let rep = Report::new(prop, tier);
     let thorough = rep.thorough();
     let plans: Vec<(&str, usize, bool)> = if thorough {
-        vec![("solo", 4, prop == "C08"), ("chain", 3, false), ("errsrc", 3, false), ("nested", 3, false), ("empty", 4, false), ("aligned", 2, false), ("big", 2, false), ("dotdep", 3, false)]
+        vec![("solo", 4, prop == "C08"), ("chain", 3, false), ("errsrc", 3, false), ("nested", 3, false), ("empty", 4, false), ("aligned", 2, false), ("big", 2, false), ("dotdep", 3, false), ("afteronly", 3, false)]
     } else {
-        vec![("solo", 2, prop == "C08"), ("chain", 2, false), ("errsrc", 2, false), ("nested", 2, false), ("empty", 3, false), ("aligned", 2, false), ("dotdep", 2, false)]
+        vec![("solo", 2, prop == "C08"), ("chain", 2, false), ("errsrc", 2, false), ("nested", 2, false), ("empty", 3, false), ("aligned", 2, false), ("dotdep", 2, false), ("afteronly", 2, false)]
     };
     rep.set("bounds", json!(plans.iter().map(|(n, d, pf)| format!("{n}: depth {d}{}", if *pf { " + every byte-prefix" } else { "" })).collect::<Vec<_>>()));
     rep.set("operations", json!("RUN(mode in build/needed/verify/clean, input selection, trailing-newline on/off), EDIT(source i), TAMPER(generated path, 11 kinds)"));
